@@ -330,8 +330,7 @@ func (c *Client) Ping(timeout time.Duration) error {
 // Disconnect sends a normal DISCONNECT and closes.
 func (c *Client) Disconnect() {
 	_ = c.Send(&mw.Packet{Type: mw.DISCONNECT})
-	c.WaitClosed(3 * time.Second)
-	_ = c.Conn.Close()
+	_ = c.Conn.Close() // the client closes the network connection after DISCONNECT; the broker does not
 	<-c.done
 }
 
